@@ -47,7 +47,7 @@ NestUnits == Byte({91, 93, 44, 125, 49}) \cup {<<123, 125>>, <<91, 93>>, <<123, 
 Units == CASE U = "nest" -> NestUnits [] U = "tok" -> TokUnits [] U = "str" -> StrUnits [] U = "num" -> NumUnits [] U = "lit" -> LitUnits
            [] U = "ws" -> WsUnits [] U = "long" -> Byte({49, 46, 101, 93}) [] OTHER -> {}
 \* "big": long literals, wide containers, deep nesting; "allbytes": every byte value in every syntactic position (no growth: MaxUnits = 0)
-Starts == CASE U = "str" -> {<<34>>, <<123, 34>>} [] U = "long" -> LongStarts [] U = "big" -> BigParseTexts [] U = "allbytes" -> AllByteTexts [] OTHER -> {<<>>}
+Starts == CASE U = "str" -> {<<34>>, <<123, 34>>} [] U = "long" -> LongStarts [] U = "big" -> BigParseTexts [] U = "bigq" -> BigParseTextsQ [] U = "allbytes" -> AllByteTexts [] OTHER -> {<<>>}
 
 \* ---- L1 classification ---------------------------------------------------------------------------------
 Front(b) == SubSeq(b, 1, Len(b) - 1)
